@@ -38,6 +38,11 @@ type C18Scenario struct {
 	Mode  string         `json:"mode"` // term | multi
 	Sync  *SyncScenario  `json:"sync,omitempty"`
 	Multi *MultiScenario `json:"multi,omitempty"`
+	// LitFlip > 0 (term mode): one literal data byte (the LitFlip-th, modulo
+	// the number available, located by decoding a fault-free run) is damaged in
+	// flight, so that the receiver detects a checksum mismatch in mid-session:
+	// the session must still run to completion (with an error).
+	LitFlip int `json:"lit_flip,omitempty"`
 }
 
 type c18 struct{}
@@ -133,7 +138,11 @@ func (c18) Generate(seed uint64, tier string, index int) any {
 	if g.R.Intn(3) == 0 {
 		sc.Faults = append(sc.Faults, Fault{Kind: "stall", Node: []string{"client", "server"}[g.R.Intn(2)], At: int64(g.R.Intn(400)), Len: 1 + g.R.Intn(300)})
 	}
-	return &C18Scenario{Mode: "term", Sync: &sc}
+	out := &C18Scenario{Mode: "term", Sync: &sc}
+	if arr != "A4" && g.R.Intn(4) == 0 {
+		out.LitFlip = 1 + g.R.Intn(1<<20)
+	}
+	return out
 }
 
 func (c18) Run(t *testing.T, scenario any, job *Job, res *Result) {
@@ -148,6 +157,54 @@ func (c18) Run(t *testing.T, scenario any, job *Job, res *Result) {
 		if err := prepare(sc.Sync, lay); err != nil {
 			res.Invalid = err.Error()
 			return
+		}
+		if sc.LitFlip > 0 && sc.Sync.Arr != "A4" {
+			// fault-free run first, to locate the literal bytes on the wire
+			base := RunSyncSession(t, sc.Sync, lay, SessionHooks{TapWire: true, MaxWire: 64 << 20})
+			res.AddSession(base)
+			if base.Outcome == kernel.Finished && base.ClientErr == nil && base.ServerErr == nil {
+				if ps, err := parseSenderSide(sc.Sync, base); err == nil {
+					var lits []int64
+					for _, rp := range ps.Replies {
+						for _, to := range rp.TokOffs {
+							if to.Lit > 0 {
+								lits = append(lits, to.Off+4+int64(sc.LitFlip%to.Lit)-ps.MuxBase)
+							}
+						}
+					}
+					if len(lits) > 0 {
+						pull := sc.Sync.Arr == "A1" || sc.Sync.Arr == "A3p"
+						wire, dir := base.WireCS, 0
+						if pull {
+							wire, dir = base.WireSC, 1
+						}
+						raw := rawOffsetOf(wire, psPreamble(sc.Sync, wire), pull, lits[sc.LitFlip%len(lits)])
+						if raw > 0 {
+							if err := prepare(sc.Sync, lay); err != nil {
+								res.Inconclusive = err.Error()
+								return
+							}
+							run := *sc.Sync
+							run.Faults = append(append([]Fault(nil), sc.Sync.Faults...), Fault{Kind: "flip", Dir: dir, At: raw, Bit: sc.LitFlip % 8})
+							f := RunSyncSession(t, &run, lay, SessionHooks{})
+							res.AddSession(f)
+							res.Probe("literal_flip_runs", 1)
+							if f.ClientErr != nil || f.ServerErr != nil {
+								res.Probe("literal_flip_detected_by_receiver", 1)
+							}
+							if f.Outcome == kernel.Deadlock || f.Outcome == kernel.StepBudget {
+								res.Violate("deadlock", "error-path-hang:"+sc.Sync.Arr, fmt.Sprintf("a literal byte was damaged in flight (raw offset %d, direction %d); the receiving side detects the mismatch but the session never completes: %s\nclient stderr: %s\nserver stderr: %s", raw, dir, f.Pending, tail(f.ClientStderr, 600), tail(f.ServerStderr, 600)))
+								setTape(&sc.Sync.Tr, f)
+								return
+							}
+						}
+					}
+				}
+			}
+			if err := prepare(sc.Sync, lay); err != nil {
+				res.Inconclusive = err.Error()
+				return
+			}
 		}
 		s := RunSyncSession(t, sc.Sync, lay, SessionHooks{})
 		res.AddSession(s)
